@@ -748,3 +748,19 @@ V2("F5-update-z-times-sigma", ["C07"], [dict(module="factor_analysis", old="""  
             id_plus_d_prod = self._compute_id_plus_d_prod_i(dt_inv_sigma_d, n_acc[y_i])
             X_i = self._get_statistics_by_class_id(X, y, y_i)
             latent_x_i""", count=2)], "update_z and compute_accumulators_D: D * sigma instead of D / sigma - every product still has consistent units because the identity was treated as unit-free")
+
+# ---- round 7: refactorings of the fourth benign round as bases -------------------------------------------------------------
+_B4 = "benign/B4%s/patch.diff"
+for _k in ("a-1", "a-2", "a-3", "a-4", "b-1", "b-2", "b-3", "b-4", "c-1", "c-2", "c-3", "c-4", "d-1", "d-2", "d-3", "d-4", "e-1", "e-2", "e-3", "e-4", "f-1", "f-2", "f-3", "f-4"):
+    VP("R7-B4" + _k, ["C01"], _B4 % _k, "stored refactoring of the fourth benign round")
+VP("R7-worker-copy-overrides-alpha", ["C03", "C04"], _B4 % "a-1", "worker copy resets map_alpha", "gmm", "worker.k_means_trainer = None", "worker.k_means_trainer = None\n        worker.map_alpha = 0.5")
+VP("R7-namespace-without-floor", ["C10", "C12"], _B4 % "a-2", "parameter namespace lacks the variance floor", "ivector", "update_sigma=machine.update_sigma, variance_floor=machine.variance_floor)", "update_sigma=machine.update_sigma)")
+VP("R7-view-without-D", ["C09", "C07"], _B4 % "a-3", "task view lacks D", "factor_analysis", "for name in ('ubm', 'r_U', '_V', '_D'):", "for name in ('ubm', 'r_U', '_V'):")
+VP("R7-estep-params-without-logweights", ["C02"], _B4 % "a-4", "frozen E-step parameters lack the log weights", "gmm", "g_norms=self.g_norms, log_weights=self.log_weights)", "g_norms=self.g_norms)")
+VP("R7-single-block-shortcut-any-length", ["C04", "C20"], _B4 % "b-3", "single-block shortcut taken for any number of blocks", "kmeans", "if len(stats) == 1 and all(", "if len(stats) >= 1 and all(")
+VP("R7-stream-lse-raw-exp", ["C01"], _B4 % "c-1", "streaming log-sum-exp exponentiates raw values", "gmm", "* np.exp(gap)", "* np.exp(low)")
+VP("R7-stream-lse-min-reference", ["C01"], _B4 % "c-1", "streaming log-sum-exp keeps the minimum as reference", "gmm", "np.maximum(peak, term), np.minimum(peak, term)", "np.minimum(peak, term), np.maximum(peak, term)")
+VP("R7-onehot-masks-ne", ["C06", "C20"], _B4 % "d-2", "one-hot membership by inequality", "kmeans", "membership = closest_centroid_indices == cluster_ids[:, None]", "membership = closest_centroid_indices != cluster_ids[:, None]")
+VP("R7-onehot-fixed-row", ["C06"], _B4 % "d-2", "the same mask row for every cluster", "kmeans", "members = data[membership[i]]", "members = data[membership[0]]")
+VP("R7-steps-one-short", ["C03"], _B4 % "e-2", "range stops one step early", "gmm", "range(1, int(max_steps) + 1)", "range(1, int(max_steps))")
+VP("R7-steps-count-when-capped", ["C03"], _B4 % "e-2", "unbounded counter when a cap is configured", "gmm", "if max_steps is None:", "if max_steps is not None:")
